@@ -15,8 +15,8 @@ func init() {
 		Rule: "prefix paths P x conditions C of every predicate kind (six comparisons, exists, starts with, like_regex, && || !, is unknown, nested filters, conditions that raise suppressible errors) x documents x modes: " +
 			"Query(P ?(C)) is compared with Query(P) (after one level of lax unwrapping) filtered by Query of the predicate check expression C[@:=$] on each item; strict P ?(C1) ?(C2) is compared with P ?(C1 && C2). " +
 			"Non-trivial: P yields at least one item; distinct by (P, C, document, decoding)",
-		Run:    runC10,
-		Replay: replayC10,
+		Run:          runC10,
+		Replay:       replayC10,
 		MinExercised: map[string]int64{"model": 5000, "kept-iff-true": 5000, "subsequence": 5000, "hard-aborts": 100, "conjunction": 1000},
 		Assumptions: []string{
 			"C[@:=$] is produced on the abstract tree: @ at filter depth 0 becomes $, and $ becomes the variable $root bound to the document",
@@ -295,9 +295,13 @@ func runC10(c *h.Ctx) {
 			// incomparable, items (existential in lax mode, all-pairs in strict mode)
 			seqs := []func() *gen.N{
 				func() *gen.N { return &gen.N{K: gen.KCurrent, Next: &gen.N{K: gen.KAnyArray}} },
-				func() *gen.N { return &gen.N{K: gen.KRoot, Next: &gen.N{K: gen.KKey, S: g.C.Keys[r.IntN(len(g.C.Keys))], Next: &gen.N{K: gen.KAnyArray}}} },
+				func() *gen.N {
+					return &gen.N{K: gen.KRoot, Next: &gen.N{K: gen.KKey, S: g.C.Keys[r.IntN(len(g.C.Keys))], Next: &gen.N{K: gen.KAnyArray}}}
+				},
 				func() *gen.N { return &gen.N{K: gen.KVar, S: "arr", Next: &gen.N{K: gen.KAnyArray}} },
-				func() *gen.N { return &gen.N{K: gen.KCurrent, Next: &gen.N{K: gen.KKey, S: g.C.Keys[r.IntN(len(g.C.Keys))]}} },
+				func() *gen.N {
+					return &gen.N{K: gen.KCurrent, Next: &gen.N{K: gen.KKey, S: g.C.Keys[r.IntN(len(g.C.Keys))]}}
+				},
 				func() *gen.N { return gen.NumFromText(g.C.Nums[r.IntN(len(g.C.Nums))], false) },
 				func() *gen.N { return &gen.N{K: gen.KRoot, Next: &gen.N{K: gen.KAnyArray}} },
 			}
